@@ -116,7 +116,9 @@ DeadState ==
    e |-> <<>>, err |-> "none", haspol |-> FALSE, acc |-> {}, mtx |-> FALSE,
    id |-> "", cat |-> "", delim |-> "", sym |-> "", enc |-> <<>>,
    \* user closures (C14): validity policy none / approving / rejecting; the others installed or not
-   vpol |-> "none", ppol |-> FALSE, epol |-> FALSE, upol |-> FALSE, mpol |-> FALSE]
+   vpol |-> "none", ppol |-> FALSE, epol |-> FALSE, upol |-> FALSE, mpol |-> FALSE,
+   \* log levels: a bit-set over 16 levels (bit numbers 1..16)
+   lvl |-> {}]
 
 NewState(kind, cap) ==
   [DeadState EXCEPT !.live = TRUE, !.kind = kind, !.cap = cap]
@@ -150,6 +152,43 @@ FoldWord(w) ==
 \* (no listed property depends on that; modelled as built).
 KindObs(s) == IF s.sym # "" THEN s.sym
               ELSE IF "fold" \in s.opts THEN FoldWord(s.kind) ELSE s.kind
+
+(***************************************************************************)
+(* Log levels (C18): a bit-set with "none" and "all" shortcuts.  An         *)
+(* argument is [bits, none, all]: the level bits it names (a name or a      *)
+(* constant names one bit, a raw integer any number), or one of the two     *)
+(* shortcuts.  SetLogLevel processes its arguments left to right: "none"    *)
+(* clears everything and stops, "all" sets everything and stops, anything   *)
+(* else is OR-ed in.  UnsetLogLevel clears the named bits and skips "none". *)
+(* (Unknown names / types and UnsetLogLevel("all") are outside the model:   *)
+(* the property is silent and documentation and code disagree.)             *)
+(***************************************************************************)
+AllBits == 1..16
+RECURSIVE LvShift(_, _)
+LvShift(lvl, args) ==
+  IF args = <<>> THEN lvl
+  ELSE LET a == Head(args) IN
+       IF a.none THEN {} ELSE IF a.all THEN AllBits
+       ELSE LvShift(lvl \cup LoRange(a.bits), Tail(args))
+RECURSIVE LvUnshift(_, _)
+LvUnshift(lvl, args) ==
+  IF args = <<>> THEN lvl
+  ELSE LET a == Head(args) IN
+       IF a.none THEN LvUnshift(lvl, Tail(args))
+       ELSE LvUnshift(lvl \ LoRange(a.bits), Tail(args))
+
+LvName(b) ==
+  CASE b = 1 -> "CALLS" [] b = 2 -> "POLICY" [] b = 3 -> "STATE" [] b = 4 -> "DEBUG" [] b = 5 -> "ERROR" [] b = 6 -> "TRACE"
+    [] b = 7 -> "USER1" [] b = 8 -> "USER2" [] b = 9 -> "USER3" [] b = 10 -> "USER4" [] b = 11 -> "USER5" [] b = 12 -> "USER6"
+    [] b = 13 -> "USER7" [] b = 14 -> "USER8" [] b = 15 -> "USER9" [] OTHER -> "USER10"
+RECURSIVE LvJoin(_, _)
+LvJoin(lvl, from) ==      \* names of the set bits >= from, in bit order, comma separated
+  LET S == {b \in lvl : b >= from} IN
+  IF S = {} THEN ""
+  ELSE LET b == CHOOSE x \in S : \A y \in S : x <= y
+           rest == LvJoin(lvl, b + 1)
+       IN IF rest = "" THEN LvName(b) ELSE LvName(b) \o "," \o rest
+LvString(lvl) == IF lvl = {} THEN "NONE" ELSE IF lvl = AllBits THEN "ALL" ELSE LvJoin(lvl, 1)
 
 (***************************************************************************)
 (* Step: one public call on one handle.                                    *)
@@ -210,7 +249,12 @@ StepLive(s, c) ==
     [] c.op = "SetPushPolicy" ->
          [s |-> [s EXCEPT !.haspol = c.on, !.acc = IF c.on THEN LoRange(c.acc) ELSE {}], ret |-> <<>>]
     [] c.op = "SetMutex" -> [s |-> [s EXCEPT !.mtx = TRUE], ret |-> <<>>]
-    [] c.op = "SetID" -> [s |-> [s EXCEPT !.id = c.v], ret |-> <<>>]
+    [] c.op = "SetID" ->
+         \* "_random" (any case) draws a 24-character [A-Z0-9] identifier, "_addr" stores the
+         \* pointer rendering Addr() returns; both are nondeterministic values of a stated SHAPE
+         [s |-> [s EXCEPT !.id = CASE c.v \in {"_random", "_RANDOM", "_Random"} -> "<random24>"
+                                    [] c.v \in {"_addr", "_ADDR"} -> "<addr>"
+                                    [] OTHER -> c.v], ret |-> <<>>]
     [] c.op = "SetCategory" -> [s |-> [s EXCEPT !.cat = c.v], ret |-> <<>>]
     [] c.op = "SetDelimiter" ->
          \* a string or a non-zero rune is taken; any other argument clears
@@ -224,6 +268,8 @@ StepLive(s, c) ==
          [s |-> [s EXCEPT !.enc = IF c.pairs = <<>> THEN <<>> ELSE EncAddAll(s.enc, c.pairs)],
           ret |-> <<>>]
     [] c.op = "Free" -> [s |-> DeadState, ret |-> <<"nil">>]
+    [] c.op = "SetLogLevel"   -> [s |-> [s EXCEPT !.lvl = LvShift(s.lvl, c.args)], ret |-> <<>>]
+    [] c.op = "UnsetLogLevel" -> [s |-> [s EXCEPT !.lvl = LvUnshift(s.lvl, c.args)], ret |-> <<>>]
     [] c.op = "SetValidityPolicy" -> [s |-> [s EXCEPT !.vpol = c.mode], ret |-> <<>>]
     [] c.op = "SetPresentationPolicy" ->
          \* a BASIC stack refuses a presentation policy and records an error
@@ -303,7 +349,7 @@ Obs(s) ==
      padded |-> "true", cannest |-> "false", nesting |-> "false", err |-> "none",
      canmtx |-> "false", id |-> "unspecified", cat |-> "", delim |-> "", sym |-> "",
      enc |-> <<>>, isenc |-> "false", elems |-> <<>>, integ |-> "ok", locked |-> "false",
-     valid |-> "err", strsrc |-> "empty", eqsrc |-> "none", umsrc |-> "none"]
+     valid |-> "err", strsrc |-> "empty", eqsrc |-> "none", umsrc |-> "none", loglevels |-> ""]
   ELSE
     [init |-> "true", len |-> L, empty |-> B2S(L = 0),
      cap |-> IF s.cap > 0 THEN s.cap ELSE -1,
@@ -329,6 +375,7 @@ Obs(s) ==
                 ELSE IF (\A n \in 1..L : s.e[n] = "Z") /\ "paren" \notin s.opts /\ ("lonce" \notin s.opts \/ s.kind = "LIST")
                      THEN "empty" ELSE "builtin",
      eqsrc |-> IF s.epol THEN "closure" ELSE "builtin",
-     umsrc |-> IF s.upol THEN "closure" ELSE "builtin"]
+     umsrc |-> IF s.upol THEN "closure" ELSE "builtin",
+     loglevels |-> LvString(s.lvl)]
 
 =============================================================================
